@@ -141,6 +141,26 @@ def build_target(spec, values):
                           {"concentration": Parameter("c", T(spec["conc"])), "rate": Parameter("rt", T(spec["rate"]))},
                           validate_args=False)  # outside the support: nan (the degenerate branch), not a raise
         return [w, r], JointDistributionModel("joint", [dd, dg])
+    if kind == "skygrid":
+        # skygrid: log population sizes `field` (GMRF prior with precision tau, Gamma prior on tau), piecewise
+        # constant coalescent on a fixed grid for fixed node heights; theta = exp(field)
+        from torchtree.distributions.gmrf import GMRF
+        from torchtree.evolution.coalescent import FakeTreeModel, PiecewiseConstantCoalescentGridModel
+
+        field = Parameter("field", T(values[0]))
+        tau = Parameter("tau", T(values[1]))
+        theta = TransformedParameter("theta", field, torch.distributions.ExpTransform())
+        d = len(values[0])
+        grid = Parameter(None, torch.linspace(0, spec["cutoff"], d, dtype=D)[1:])
+        heights = Parameter(None, T(spec["sampling"] + spec["coalescent"]))
+        coal = PiecewiseConstantCoalescentGridModel("coal", theta, grid, FakeTreeModel(heights))
+        gmrf = GMRF("gmrf", field, tau)
+        prior = Distribution("prior", torch.distributions.Gamma, tau,
+                             {"concentration": Parameter("c", T(spec["conc"])), "rate": Parameter("rt", T(spec["rate"]))},
+                             validate_args=False)
+        joint = JointDistributionModel("joint", [coal, gmrf, prior])
+        joint._c15 = {"coal": coal, "gmrf": gmrf, "heights": heights}
+        return [field, tau], joint
     if kind == "quad":
         ps = [Parameter(f"q{i}", T(v)) for i, v in enumerate(values)]
         return ps, make_quad(torch)(ps, T(spec["G"]), T(spec["b"]), spec.get("lo", -math.inf), spec.get("hi", math.inf))
@@ -166,6 +186,13 @@ def build_operators(spec_ops, params, joint):
             op = SlidingWindowOperator(f"op{i}", ps, o["weight"], o["target"], o["scale"], **kw)
         elif o["kind"] == "dirichlet":
             op = DirichletOperator(f"op{i}", ps, o["weight"], o["target"], o["scale"], **kw)
+        elif o["kind"] == "block":
+            from torchtree.inference.mcmc.gmrf_block_updating import GMRFPiecewiseCoalescentBlockUpdatingOperator
+
+            op = GMRFPiecewiseCoalescentBlockUpdatingOperator(f"op{i}", joint._c15["coal"], joint._c15["gmrf"], o["weight"],
+                                                              o["target"], o["scale"], **kw)
+            w_, c_ = joint._c15["coal"].distribution().sufficient_statistics(joint._c15["heights"].tensor)
+            o["w"], o["c"] = w_.tolist(), [float(v) for v in c_.tolist()]
         elif o["kind"] == "hmc":
             inner = LeapfrogIntegrator(f"lf{i}", o["steps"], o["scale"])
             integ = IntegProxy(inner)
@@ -280,17 +307,28 @@ def branch_probe(adaptors, rng, sample, accepted):
 class Scripted:
     """torch's random sources replaced by the harness PRNG; every draw is recorded (= the tape)"""
 
-    def __init__(self, torch, rng):
-        self.torch, self.rng, self.events = torch, rng, []
+    def __init__(self, torch, rng, coarse=False):
+        self.torch, self.rng, self.events, self.coarse = torch, rng, [], coarse
 
     def __enter__(self):
         t, td, me = self.torch, self.torch.distributions, self
         self.saved = (t.rand, t.randint, td.Categorical.sample, td.Dirichlet.sample, td.Normal.sample,
                       td.MultivariateNormal.sample)
+        self.saved_randn = t.randn
+
+        def randn(*size, **kw):
+            k = size[0] if isinstance(size[0], int) else size[0][0]
+            v = [me.rng.gauss(0.0, 1.0) for _ in range(k)]
+            me.events.append(("normal", v, ("randn",)))
+            return t.tensor(v, dtype=t.float64)
+
+        t.randn = randn
 
         def rand(*size, **kw):
             # torch.rand(1) is float32: keep the dtype, the value is a float32 drawn by the harness
             u = float(t.tensor(me.rng.random(), dtype=t.float32))
+            if me.coarse:
+                u = int(u * 4096) / 4096.0  # 12-bit uniforms: torch's float32 arithmetic on them is exact
             if u >= 1.0:
                 u = 0.5
             me.events.append(("rand", u))
@@ -340,6 +378,7 @@ class Scripted:
         t, td = self.torch, self.torch.distributions
         (t.rand, t.randint, td.Categorical.sample, td.Dirichlet.sample, td.Normal.sample,
          td.MultivariateNormal.sample) = self.saved
+        t.randn = self.saved_randn
 
 
 # --------------------------------------------------------------------------- one recorded run
@@ -375,6 +414,17 @@ def execute_run(cfg, tape_seed):
     def wrap(op, idx):
         o_step, o_acc, o_rej, o_tune = op.step, op.accept, op.reject, op.tune
         is_hmc = hasattr(op, "_integrator")
+        is_block = hasattr(op, "newton_raphson")
+        modes = []
+        if is_block:
+            o_nr = op.newton_raphson
+
+            def newton_raphson(*a, **k):
+                out = o_nr(*a, **k)
+                modes.append(out.detach().clone().tolist())
+                return out
+
+            op.newton_raphson = newton_raphson
         kin_ims = []
         if is_hmc:
             o_kin = op._hamiltonian.kinetic_energy
@@ -396,7 +446,10 @@ def execute_run(cfg, tape_seed):
                 cur["mass_now"] = cur["masses"][idx]
                 del kin_ims[:]
                 cur["ims0"] = len(op._integrator.im_args)
+            del modes[:]
             hr = o_step()
+            if is_block:
+                cur["modes"] = [list(m_) for m_ in modes]
             if is_hmc:
                 cur["im_used"] = list(kin_ims) + op._integrator.im_args[cur["ims0"]:]
             cur["hr"] = float(hr)
@@ -452,7 +505,11 @@ def execute_run(cfg, tape_seed):
     mc = MCMC("mcmc", JointProxy(), ops, cfg["iterations"], loggers=[logger], checkpoint=None, every=0)
     err = None
     init = snap()
-    with Scripted(torch, rng) as sc, contextlib.redirect_stdout(io.StringIO()):
+    is_sky = cfg["target"]["kind"] == "skygrid"
+    old_dtype = torch.get_default_dtype()
+    if is_sky:
+        torch.set_default_dtype(torch.float64)  # the block update allocates in the default dtype
+    with Scripted(torch, rng, coarse=is_sky) as sc, contextlib.redirect_stdout(io.StringIO()):
         try:
             mc.run()
         except ZeroDivisionError:
@@ -461,12 +518,14 @@ def execute_run(cfg, tape_seed):
             err = None if len(records) == cfg["iterations"] else "ZeroDivisionError"
         except Exception as e:
             err = f"{type(e).__name__}: {str(e)[:120]}"
+        finally:
+            torch.set_default_dtype(old_dtype)
     return {"records": records, "init": init, "init_lp": joint_calls[0] if joint_calls else None,
             "rows": rows, "error": err, "target": tgt, "ops": ops, "epoch_end": mc._epoch}
 
 
 # --------------------------------------------------------------------------- model side encoding
-def enc_machine(cfg, state, lj, epoch, acc_total, opstates, masses=None):
+def enc_machine(cfg, state, lj, epoch, acc_total, opstates, masses=None, modes=None):
     sizes = [len(v) for v in state]
     w = [str(len(sizes))] + [str(s) for s in sizes] + [f2h(x) for v in state for x in v]
     w += [f2h(lj), str(epoch), str(acc_total), str(len(cfg["ops"]))]
@@ -475,6 +534,11 @@ def enc_machine(cfg, state, lj, epoch, acc_total, opstates, masses=None):
         w += [f2h(o["target"]), "0" if o["adapt"] else "1", str(o.get("window_len", 100)), f2h(st["scale"]),
               str(st["adapt_count"]), str(st["accept"]), str(st["reject"]), str(len(st["window"]))]
         w += [str(x) for x in st["window"]]
+        if o["kind"] == "block":
+            d = len(o["w"])
+            mf = (modes or [[0.0] * d])[0] if modes else [0.0] * d
+            mb = modes[1] if modes and len(modes) > 1 else [0.0] * d
+            w += [str(d)] + [f2h(x) for x in o["w"]] + [f2h(x) for x in o["c"]] + [f2h(x) for x in mf] + [f2h(x) for x in mb]
         if o["kind"] == "hmc":
             # gradient of the joint w.r.t. the operator's OWN coordinates at the current state: -(G_oo q + b_eff),
             # b_eff = b_o + G_ox x_other — the other parameters of the joint enter through their CURRENT values
@@ -535,8 +599,8 @@ def enc_tape(events):
     return w, (len(rands), len(ints), len(dirs), len(normals))
 
 
-def enc_table(entries):
-    w = [str(len(entries))]
+def enc_table(entries, tol=1e-9):
+    w = [f2h(tol), str(len(entries))]
     for st, v in entries:
         w += [f2h(x) for p in st for x in p]
         if v is None or isinstance(v, tuple) or math.isnan(v) or math.isinf(v):
@@ -610,7 +674,8 @@ def compare_run(ck: Check, drv, cfg, res, label):
     for it, r in enumerate(recs):
         tape_w, counts = enc_tape(r["events"])
         table = [(r["before"], lj), (r["proposed"], r.get("lp_proposed"))]
-        req = ["step"] + enc_machine(cfg, state, lj, epoch, acc_total, opstates, r.get("masses")) + tape_w + enc_table(table)
+        req = ["step"] + enc_machine(cfg, state, lj, epoch, acc_total, opstates, r.get("masses"), r.get("modes")) + tape_w + \
+            enc_table(table, 1e-5 if cfg["ops"][r["op"]]["kind"] == "block" else 1e-9)
         m = parse_step(drv.ask(" ".join(req)), sizes)
         okind = cfg["ops"][r["op"]]["kind"]
         key = (label, it, okind, r["accepted"], r["hr"], tuple(flatten(r["proposed"])))
@@ -626,19 +691,27 @@ def compare_run(ck: Check, drv, cfg, res, label):
             return False
         bad = []
         tol = 0.0 if exact else 1e-10
+        if okind == "hmc" and not exact:
+            # leapfrog trajectories near / beyond the stability limit (adapted step sizes) amplify last-bit differences
+            tol = 1e-8
+        if okind == "block":
+            # torch evaluates the precision multiplier in float32 (`python float * torch.rand(1)`), and Cholesky /
+            # triangular solves round differently: 1e-6 on this transition, then continue from the implementation's
+            # state (see below)
+            tol = 1e-6
         if m["op"] != r["op"]:
             bad.append("operator index")
         if not states_close(m["proposed"], r["proposed"], tol):
             bad.append("proposal")
-        if math.isinf(r["hr"]) != math.isinf(m["hr"]) or (not math.isinf(r["hr"]) and not close(m["hr"], r["hr"], 1e-9)):
+        if math.isinf(r["hr"]) != math.isinf(m["hr"]) or (not math.isinf(r["hr"]) and not close(m["hr"], r["hr"], 1e-5 if okind == "block" else 1e-7 if okind == "hmc" else 1e-9)):
             bad.append(f"hastings ratio (model {m['hr']}, impl {r['hr']})")
         degenerate = "lp_proposed" not in r or r["lp_proposed"] is None or math.isnan(r["lp_proposed"]) or math.isinf(r["lp_proposed"])
-        if not close(m["acc_prob"], r["acc_prob"], 1e-9):
+        if not close(m["acc_prob"], r["acc_prob"], 1e-5 if okind == "block" else 1e-7 if okind == "hmc" else 1e-9):
             bad.append(f"acceptance probability (model {m['acc_prob']}, impl {r['acc_prob']})")
         if m["accepted"] != r["accepted"]:
             # the code compares in float32 (`float64 scalar > torch.rand(1)`): a draw within float32
             # resolution of the acceptance probability may go either way — not a disagreement
-            if m["u"] is not None and abs(m["acc_prob"] - m["u"]) <= 1e-6 * max(m["u"], 1e-30):
+            if m["u"] is not None and abs(m["acc_prob"] - m["u"]) <= (1e-4 if okind == "block" else 1e-6) * max(m["u"], 1e-30):
                 ck.bucket("tie/float32-comparison-zone")
                 return True
             bad.append("decision")
@@ -649,7 +722,7 @@ def compare_run(ck: Check, drv, cfg, res, label):
         # dual averaging multiplies differences of the acceptance statistic by sqrt(counter)/gamma (~1e2): the
         # model's own acceptance probabilities differ from torch's in the last bits, hence 1e-8 there
         has_dual = any(a["type"] == "dual" for a in cfg["ops"][r["op"]].get("adaptors", []))
-        if not close(m["scale"], r["scale_after"], 1e-8 if has_dual else 1e-12):
+        if not close(m["scale"], r["scale_after"], 1e-6 if okind == "block" else 1e-8 if has_dual else 1e-12):
             bad.append(f"scale after tuning (model {m['scale']}, impl {r['scale_after']})")
         if (m["adapt_count"], m["accept"], m["reject"], m["window"]) != (r["adapt_count"], r["n_accept"], r["n_reject"], r["window"]):
             bad.append("counters / acceptance window")
@@ -672,8 +745,12 @@ def compare_run(ck: Check, drv, cfg, res, label):
                          "model": m})
             return False
         state, lj, epoch, acc_total = m["after"], m["lj"], m["epoch"], m["acc_total"]
+        if okind == "block" or (okind == "hmc" and not exact):
+            state, lj = r["after"], (r["lp_proposed"] if r["accepted"] else lj)
         opstates[r["op"]] = {"scale": m["scale"], "adapt_count": m["adapt_count"], "accept": m["accept"],
                              "reject": m["reject"], "window": m["window"], "adaptors": m["adaptors"]}
+        if okind == "block":
+            opstates[r["op"]]["scale"] = r["scale_after"]
         if has_dual:
             # dual averaging amplifies last-bit differences (factor sqrt(counter)/gamma per call): after the
             # 1e-8 comparison above, continue from the implementation's step size and averages (per-step
@@ -751,6 +828,46 @@ def kin_float(im, v):
     return float(sum(a * b for a, b in zip(v, mv)) / 2)
 
 
+def block_true_hastings(o, r):
+    """independent recomputation (numpy, float64 LAPACK) of log N(gamma; mu_b, P_b^-1) - log N(gamma'; mu_f, P_f^-1)
+    from what the operator itself produced: the two mode-finder outputs (captured by wrapping newton_raphson), the
+    sufficient statistics, the precision before/after, the field before/after"""
+    import numpy as np
+
+    if math.isinf(r["hr"]):
+        return None, None
+    if len(r.get("modes", [])) != 2:
+        return None, "expected two mode-finder calls (forward and backward)"
+    g0, t0 = np.array(r["before"][o["pidx"][0]]), r["before"][o["pidx"][1]][0]
+    g1, t1 = np.array(r["proposed"][o["pidx"][0]]), r["proposed"][o["pidx"][1]][0]
+    a = r["scale_before"]
+    f = t1 / t0
+    if not (1 / a * (1 - 1e-6) <= f <= a * (1 + 1e-6)):
+        return None, f"precision multiplier {f} outside [1/scaler, scaler]"
+    d = len(g0)
+    w, c = np.array(o["w"]), np.array(o["c"])
+
+    def Q(tau):
+        M = np.zeros((d, d))
+        for i in range(d - 1):
+            M[i, i] += tau
+            M[i + 1, i + 1] += tau
+            M[i, i + 1] -= tau
+            M[i + 1, i] -= tau
+        return M
+
+    def logn(x, mode, Qm):
+        P = Qm + np.diag(w * np.exp(-mode))
+        h = w * np.exp(-mode) * (mode + 1) - c
+        mu = np.linalg.solve(P, h)
+        sign, logdet = np.linalg.slogdet(P)
+        e = x - mu
+        return 0.5 * logdet - 0.5 * e @ P @ e - 0.5 * d * math.log(2 * math.pi)
+
+    mf, mb = np.array(r["modes"][0]), np.array(r["modes"][1])
+    return float(logn(g0, mb, Q(t0)) - logn(g1, mf, Q(t1))), None
+
+
 def true_hastings(cfg, r):
     """closed-form log q(x|x')/q(x'|x) of the kernel the operator is documented to use, from the
     observed states and draws only. -> (value or None if not applicable, problem or None)"""
@@ -792,6 +909,8 @@ def true_hastings(cfg, r):
         f = dir_logpdf([v * a for v in b[k]], p[k])
         g = dir_logpdf([v * a for v in p[k]], b[k])
         return float(g - f), None
+    if kind == "block":
+        return block_true_hastings(o, r)
     if kind == "hmc":
         if math.isinf(r["hr"]):
             return None, None
@@ -873,7 +992,7 @@ def check_records(ck: Check, cfg, res, found, label):
         if prob:
             found.append((f"{kind}:proposal-kernel", {"clause": prob, "before": r["before"], "proposed": r["proposed"],
                                                       "scale": r["scale_before"]}, cfg, it))
-        elif th is not None and not math.isinf(r["hr"]) and not close(r["hr"], th, 1e-8):
+        elif th is not None and not math.isinf(r["hr"]) and not close(r["hr"], th, 1e-6 if kind == "block" else 1e-8):
             found.append((f"{kind}:hastings-ratio", {"clause": "returned Hastings ratio is not log q(x|x')/q(x'|x)",
                                                      "returned": r["hr"], "true": th}, cfg, it))
         # 3. accept rule
@@ -1202,6 +1321,21 @@ def gen_cfg(rng, family, adapt, iterations):
         if rng.random() < 0.5:
             ops.append(op("window", [1], rng.uniform(0.1, 1.0)))  # may step below zero: degenerate branch
         exact = False
+    elif family == "skygrid":
+        ntaxa = rng.randint(4, 7)
+        d = rng.randint(3, 5)
+        sampling = sorted([0.0] + [rng.choice([0.0, rng.uniform(0, 1.0)]) for _ in range(ntaxa - 1)])
+        coal_t, cur_t = [], max(sampling) * rng.random()
+        for _ in range(ntaxa - 1):
+            cur_t += rng.expovariate(1.0) * 0.7 + 0.05
+            coal_t.append(max(cur_t, max(sampling) + 0.01 * len(coal_t) + 0.01))
+        coal_t = sorted(coal_t)
+        t = {"kind": "skygrid", "sampling": sampling, "coalescent": coal_t, "cutoff": coal_t[-1] * rng.uniform(0.6, 1.1),
+             "conc": [rng.uniform(1.0, 3.0)], "rate": [rng.uniform(0.5, 2.0)],
+             "init": [[rng.uniform(-1, 1) for _ in range(d)], [rng.uniform(0.5, 3.0)]]}
+        ops = [op("block", [0, 1], rng.choice([1.5, 2.0, 4.0, 1.0]), weight=3.0, target=rng.choice([0.24, 0.5])),
+               op("scaler", [1], rng.uniform(0.4, 0.9)), op("window", [0], rng.uniform(0.2, 1.0))]
+        exact = False
     elif family == "hmc_adapt":
         # HMC with the adaptors of hmc/adaptation.py, run past the first mass-matrix re-estimation
         n = rng.randint(2, 3)
@@ -1324,10 +1458,10 @@ def run(ck: Check):
             c = json.loads(f.read_text())
             if "cfg" in c:
                 runs.append((c["cfg"], c["tape_seed"], "corpus/" + f.stem))
-        fams = ["normal", "gamma_exp", "dirichlet", "quad", "quad_nan", "hmc_adapt", "hmc_adapt", "edge"]
+        fams = ["normal", "gamma_exp", "dirichlet", "quad", "quad_nan", "hmc_adapt", "hmc_adapt", "edge", "skygrid", "skygrid"]
         for i in range(n_runs):
-            fam = fams[i % 8]
-            adapt = [True, False, "mixed"][(i // 8) % 3]
+            fam = fams[i % 10]
+            adapt = [True, False, "mixed"][(i // 10) % 3]
             runs.append((gen_cfg(rng, fam, adapt, rng.randint(*iters)), rng.randrange(1 << 30), f"run{i}"))
         for cfg, tseed, label in runs:
             try:
